@@ -2,18 +2,24 @@ import RumaModel.Proto
 import RumaModel.Model.EventDispatch
 import RumaModel.Spec.EventTypes
 import RumaModel.Model.ContentSchema
-import RumaModel.Model.Ids
-import RumaModel.Model.IdsIp
+import RumaModel.Model.ContentSchemaLeaves
+import RumaModel.Generated.C18
 namespace Ruma.Driver.C18
 open Ruma Ruma.Proto Ruma.EventDispatch Ruma.Spec.EventTypes
 
 /-! ## `c18.schema`: the schema-driven model of the per-type content code
 
 Request: `c18.schema <kind> s<type> <json tokens> <schema tokens>`; answer `ok <tokens of the output,
-entries of every object sorted by key (stable)>` / `err` / `err-wf` (the schema sent by the harness
-fails the decidable part of `WF`: a harness bug or an implementation whose facts contradict each
-other) / `err-fix` (the output is not its own fixpoint: a scalar reader of this file is not
-idempotent). Schema tokens (prefix notation):
+entries of every object sorted by key (stable)>` / `err` / `err-schema` (there is no generated schema
+named `kind:type`, or the schema tokens carried by the request do not print the generated schema of
+that name: the facts the request was made with are not the facts extracted from the running code —
+a pinned corpus line after a fact changed, or a harness bug) / `err-wf` (the generated schema fails
+`wfb`; then `Props/C18.lean` does not build either).
+
+The schema used is the GENERATED one (`Generated.C18.descs`, the terms `generated_schemas_wf` is
+about), never one parsed from the request; the in-line tokens are only compared with it. Nothing of
+the model lives here: `wfb`, `leafOf`/`Leaf` and the scalar readers are in
+`Model/ContentSchemaLeaves.lean`. Schema tokens (prefix notation), as printed by `descToks`:
 
     A                      serde_json::Value
     L<Kind>                scalar leaf: Str Int UInt Bool Float IntLax Voip UserId EventId RoomId RoomAlias
@@ -26,211 +32,51 @@ idempotent). Schema tokens (prefix notation):
     O<n> <0|1> field×n     struct (1: keeps unknown keys)
     field = F s<name> <flags|-> Y<k> s<alias>×k <D <json>|_> S<k> <json>×k <schema>
             flags ⊆ r(equired) n(ull is absent) l(enient) g(host)
+    T s<tag> C<n> (s<label> <schema>)×n   internally tagged choice (no modelled type has one)
 -/
 namespace Sch
 open Ruma.ContentSchema
 
-def idExt : Ids.Ext where
-  isIpv6 := Ids.ipv6Ref
-  isIpv4 := Ids.ipv4Ref
-  uniAlnum := fun s => s.all (· < 128)
+def leafToks : Leaf → List String
+  | .const c => ["K", strTok c]
+  | .oneOf cs => ("E" ++ toString cs.length) :: cs.map strTok
+  | l => ["L" ++ l.name]
 
-def okRes : Ids.Res α → Bool
-  | .ok _ => true
-  | _ => false
+def flagsTok (req na len ghost : Bool) : String :=
+  let f := (if req then "r" else "") ++ (if na then "n" else "") ++ (if len then "l" else "") ++ (if ghost then "g" else "")
+  if f.isEmpty then "-" else f
 
-def isWsByte (b : Nat) : Bool := b == 32 || (9 ≤ b && b ≤ 13)
-
-def trim (s : Str) : Str := ((s.dropWhile isWsByte).reverse.dropWhile isWsByte).reverse
-
-def digitsNat (s : Str) : Option Nat :=
-  if s.isEmpty || !s.all Ids.isDigit then none else some (s.foldl (fun acc b => acc * 10 + (b - 48)) 0)
-
-/-- `deserialize_v1_powerlevel::visit_str`. -/
-def parseV1 (s : Str) : Option Int :=
-  match trim s with
-  | 43 :: rest => if rest.head? == some 43 then none else (digitsNat rest).map Int.ofNat
-  | 45 :: rest => (digitsNat rest).map (fun n => - Int.ofNat n)
-  | t => (digitsNat t).map Int.ofNat
-
-def b64Val (c : Nat) : Option Nat :=
-  if 65 ≤ c && c ≤ 90 then some (c - 65)
-  else if 97 ≤ c && c ≤ 122 then some (c - 97 + 26)
-  else if 48 ≤ c && c ≤ 57 then some (c - 48 + 52)
-  else if c == 43 then some 62
-  else if c == 47 then some 63
-  else none
-
-def b64Sym (v : Nat) : Nat :=
-  if v < 26 then 65 + v else if v < 52 then 97 + (v - 26) else if v < 62 then 48 + (v - 52) else if v == 62 then 43 else 47
-
-/-- `Base64<Standard>`: decode with optional (at most canonical) padding and trailing bits allowed,
-re-encode without padding. -/
-def base64Norm (s : Str) : Option Str :=
-  let syms := s.takeWhile (· != 61)
-  let pads := s.dropWhile (· != 61)
-  if !pads.all (· == 61) then none else
-  match syms.mapM b64Val with
-  | none => none
-  | some vals =>
-    let r := vals.length % 4
-    let maxPad := if r == 2 then 2 else if r == 3 then 1 else 0
-    if r == 1 || pads.length > maxPad then none else
-    let vals' := match r, vals.reverse with
-      | 2, last :: pre => (((last / 16) * 16) :: pre).reverse
-      | 3, last :: pre => (((last / 4) * 4) :: pre).reverse
-      | _, _ => vals
-    some (vals'.map b64Sym)
-
-def acceptStr (p : Str → Bool) : Str → Option Str := fun s => if p s then some s else none
-
-def leafOf : String → Option Schema
-  | "Str" => some (Schema.str some)
-  | "Int" => some (Schema.int (-Canonical.maxInt) Canonical.maxInt)
-  | "UInt" => some (Schema.int 0 Canonical.maxInt)
-  | "Bool" => some Schema.bool
-  | "Float" => some Schema.float
-  | "IntLax" => some (Schema.intLax (-Canonical.maxInt) Canonical.maxInt parseV1)
-  | "Voip" => some Schema.voipVersion
-  | "UserId" => some (Schema.str (acceptStr (fun s => okRes (Ids.userIdValidate idExt s))))
-  | "EventId" => some (Schema.str (acceptStr (fun s => okRes (Ids.eventIdValidate idExt s))))
-  | "RoomId" => some (Schema.str (acceptStr (fun s => okRes (Ids.roomIdValidate s))))
-  | "RoomAlias" => some (Schema.str (acceptStr (fun s => okRes (Ids.roomAliasIdValidate idExt s))))
-  | "RoomAliasOrEmpty" => some (Schema.str (acceptStr (fun s => s.isEmpty || okRes (Ids.roomAliasIdValidate idExt s))))
-  | "ServerName" => some (Schema.str (acceptStr (fun s => okRes (Ids.serverNameValidate idExt s))))
-  | "KeyId" => some (Schema.str (acceptStr (fun s => okRes (Ids.keyIdValidate idExt .signingKeyVersion s))))
-  | "RoomVersion" => some (Schema.str (acceptStr (fun s => okRes (Ids.roomVersionIdValidate s))))
-  | "ReceiptThread" => some (Schema.str (acceptStr (fun s => if s.head? == some 36 then okRes (Ids.eventIdValidate idExt s) else true)))
-  | "Base64" => some (Schema.str base64Norm)
-  | _ => none
-
-def keyOkOf : String → Option (Str → Bool)
-  | "Str" => some (fun _ => true)
-  | "UserId" => some (fun s => okRes (Ids.userIdValidate idExt s))
-  | "EventId" => some (fun s => okRes (Ids.eventIdValidate idExt s))
-  | "RoomId" => some (fun s => okRes (Ids.roomIdValidate s))
-  | "ServerName" => some (fun s => okRes (Ids.serverNameValidate idExt s))
-  | "KeyId" => some (fun s => okRes (Ids.keyIdValidate idExt .signingKeyVersion s))
-  | _ => none
-
-def parseStrs : Nat → List String → Option (List Str × List String)
-  | 0, rest => some ([], rest)
-  | n + 1, t :: rest =>
-    match parseStrTok t, parseStrs n rest with
-    | some s, some (ss, rest') => some (s :: ss, rest')
-    | _, _ => none
-  | _, [] => none
-
-def parseVals : Nat → List String → Option (List JVal × List String)
-  | 0, rest => some ([], rest)
-  | n + 1, rest =>
-    match parseVal rest with
-    | some (v, rest') =>
-      match parseVals n rest' with
-      | some (vs, rest'') => some (v :: vs, rest'')
-      | none => none
-    | none => none
-
-def numOf (pre : Char) (t : String) : Option Nat :=
-  match t.toList with
-  | c :: ds => if c == pre then (String.ofList ds).toNat? else none
-  | [] => none
-
-def skipMarker : Str := bs "!skip-on-required"
+def valsToks : List JVal → List String
+  | [] => []
+  | v :: t => printVal v ++ valsToks t
 
 mutual
-partial def parseSchema : List String → Option (Schema × List String)
-  | [] => none
-  | t :: rest =>
-    match t.toList with
-    | ['A'] => some (.any, rest)
-    | 'L' :: k => (leafOf (String.ofList k)).map (fun s => (s, rest))
-    | ['K'] =>
-      match rest with
-      | c :: rest' => (parseStrTok c).map (fun c => (Schema.str (acceptStr (fun s => s == c)), rest'))
-      | [] => none
-    | 'E' :: ds =>
-      match (String.ofList ds).toNat? with
-      | some n => (parseStrs n rest).map (fun (cs, rest') => (Schema.str (acceptStr (fun s => cs.contains s)), rest'))
-      | none => none
-    | ['R'] => (parseSchema rest).map (fun (e, rest') => (.arr e, rest'))
-    | ['N'] => (parseSchema rest).map (fun (e, rest') => (.nullOr e, rest'))
-    | ['M'] =>
-      match rest with
-      | k :: rest' =>
-        match k.toList with
-        | 'L' :: kk =>
-          match keyOkOf (String.ofList kk), parseSchema rest' with
-          | some ok, some (v, rest'') => some (.map ok v, rest'')
-          | _, _ => none
-        | _ => none
-      | [] => none
-    | 'O' :: ds =>
-      match (String.ofList ds).toNat?, rest with
-      | some n, keep :: rest' =>
-        if keep ≠ "0" ∧ keep ≠ "1" then none else
-        (parseFields n rest').map (fun (fs, rest'') => (.obj fs (keep == "1"), rest''))
-      | _, _ => none
-    | _ => none
-partial def parseFields : Nat → List String → Option (List Field × List String)
-  | 0, rest => some ([], rest)
-  | n + 1, rest =>
-    match parseField rest with
-    | some (f, rest') => (parseFields n rest').map (fun (fs, rest'') => (f :: fs, rest''))
-    | none => none
-partial def parseField : List String → Option (Field × List String)
-  | "F" :: name :: flags :: y :: rest =>
-    match parseStrTok name, numOf 'Y' y with
-    | some name, some na =>
-      match parseStrs na rest with
-      | some (aliases, rest1) =>
-        let dfltRes : Option (Option JVal × List String) := match rest1 with
-          | "_" :: r => some (none, r)
-          | "D" :: r => (parseVal r).map (fun (v, r') => (some v, r'))
-          | _ => none
-        match dfltRes with
-        | some (dflt, sk :: rest2) =>
-          match numOf 'S' sk with
-          | some ns =>
-            match parseVals ns rest2 with
-            | some (skips, rest3) =>
-              match parseSchema rest3 with
-              | some (s, rest4) =>
-                let fl := flags.toList
-                if !fl.all (fun c => c == 'r' || c == 'n' || c == 'l' || c == 'g' || c == '-') then none else
-                -- `WF`: no skipping on a field that is required or written back when absent; a violation
-                -- is carried to `wfb` as a marker schema
-                let s := if ((fl.contains 'r') || dflt.isSome) && ns > 0 && !(fl.contains 'g')
-                  then Schema.tagged skipMarker [] else s
-                some (.mk name aliases s (fl.contains 'r') dflt (fl.contains 'n') (fl.contains 'l')
-                  (fun v => skips.any (fun x => x == v)) (fl.contains 'g'), rest4)
-              | none => none
-            | none => none
-          | none => none
-        | _ => none
-      | none => none
-    | _, _ => none
-  | _ => none
+def descToks : Desc → List String
+  | .any => ["A"]
+  | .leaf l => leafToks l
+  | .arr e => "R" :: descToks e
+  | .map k v => "M" :: ("L" ++ k.name) :: descToks v
+  | .nullOr d => "N" :: descToks d
+  | .obj fs keep => ("O" ++ toString fs.length) :: (if keep then "1" else "0") :: fieldsToks fs
+  | .tagged tag cs => "T" :: strTok tag :: ("C" ++ toString cs.length) :: casesToks cs
+def fieldsToks : List FieldD → List String
+  | [] => []
+  | f :: t => fieldToks f ++ fieldsToks t
+def fieldToks : FieldD → List String
+  | .mk name aliases d req dflt na len skips ghost =>
+    ["F", strTok name, flagsTok req na len ghost, "Y" ++ toString aliases.length] ++ aliases.map strTok ++
+    (match dflt with
+     | none => ["_"]
+     | some v => "D" :: printVal v) ++
+    ("S" ++ toString skips.length) :: valsToks skips ++ descToks d
+def casesToks : List CaseD → List String
+  | [] => []
+  | .mk label d :: t => strTok label :: (descToks d ++ casesToks t)
 end
 
-/-- The decidable part of `Spec.ContentSchema.WF` (everything but the idempotence of the scalar
-normalisers, which are fixed functions of this file): distinct spellings, no skipping on required or
-written-back fields, a written-back default that the field reads back unchanged. `skips` are the
-values the harness sent (the model's `skip` is membership in that list). -/
-partial def wfb : Schema → Bool
-  | .arr e => wfb e
-  | .map _ v => wfb v
-  | .nullOr s => wfb s
-  | .obj fields _ =>
-    fields.all (fun f =>
-      wfb f.schema &&
-      (match f.dflt with
-       | none => true
-       | some d => (f.nullAbsent && ContentSchema.isNull d) || (match project f.schema d with | some d' => d' == d | none => false)) &&
-      fields.all (fun g => f.name == g.name || !(f.spelledBy g.name))) &&
-    (fields.map (·.name)).eraseDups.length == fields.length
-  | .tagged tag cases => tag != skipMarker && cases.all (fun c => wfb c.schema)
-  | _ => true
+/-- The generated description named `kind:type`. -/
+def lookup (name : Str) : Option Desc :=
+  (Generated.C18.descs.find? (fun p => p.1 == name)).map (·.2)
 
 def insertByKey (e : Str × JVal) : List (Str × JVal) → List (Str × JVal)
   | [] => [e]
@@ -243,21 +89,17 @@ partial def canon : JVal → JVal
   | v => v
 end
 
-def answer (toks : List String) : String :=
+def answer (kind : String) (ty : Str) (toks : List String) : String :=
   match parseVal toks with
   | some (j, rest) =>
-    match parseSchema rest with
-    | some (s, []) =>
-      if !wfb s then "err-wf" else
-      match project s j with
-      | some v =>
-        -- `roundtrip_fixpoint` on this very output (covers what `wfb` cannot decide: idempotence of
-        -- the scalar readers on the values that occurred)
-        match project s v with
-        | some v' => if v' == v then "ok " ++ showVal (canon v) else "err-fix"
-        | none => "err-fix"
+    match lookup (bs kind ++ [58] ++ ty) with
+    | none => "err-schema"
+    | some d =>
+      if descToks d != rest then "err-schema" else
+      if !wfb d then "err-wf" else
+      match project d.toSchema j with
+      | some v => "ok " ++ showVal (canon v)
       | none => "err"
-    | _ => "bad-op"
   | none => "bad-op"
 
 end Sch
@@ -339,7 +181,7 @@ def handle (toks : List String) : String :=
     | _, _, _ => "bad-op"
   | "c18.schema" :: k :: ty :: rest =>
     match parseKind k, parseStrTok ty with
-    | some _, some _ => Sch.answer rest
+    | some _, some t => Sch.answer k t rest
     | _, _ => "bad-op"
   | ["c18.raw", text] =>
     match parseStrTok text with
